@@ -40,6 +40,11 @@ pub trait Rt: Clone + Send + Sync + 'static {
     fn export(&self, key: Path, h: JoinH);
     /// the current task enters / leaves a construct that keeps a clone of its waker (`FuturesUnordered`)
     fn retaining(&self, _on: bool) {}
+    /// abort one of the commands this task lives in (a lexically enclosing `Abortable`, monotonic
+    /// pick) through its abort handle; false where there is none
+    fn abort_cmd(&self, _choice: u16) -> bool {
+        false
+    }
 }
 
 pub struct TaskEnv<R: Rt> {
@@ -82,12 +87,31 @@ pub fn run<R: Rt>(mut env: TaskEnv<R>, stmts: Vec<Stmt>) -> BoxFuture<'static, T
     async move {
         for s in stmts {
             match s {
+                Stmt::Emit(_) if env.nemit >= 60_000 => {}
                 Stmt::Emit(tag) => {
                     let mut from = env.path.clone();
                     from.push(env.nemit);
                     env.nemit += 1;
                     env.sink.push(Tr::Emit(from.clone(), tag));
                     env.rt.emit(Event::Tag { tag, from, val: env.last });
+                }
+                Stmt::Burst(n) => {
+                    for _ in 0..n {
+                        if env.nemit >= 60_000 {
+                            break; // sequence numbers are 16 bit
+                        }
+                        let mut from = env.path.clone();
+                        from.push(env.nemit);
+                        env.nemit += 1;
+                        env.sink.push(Tr::Emit(from.clone(), 11));
+                        env.rt.emit(Event::Tag { tag: 11, from, val: env.last });
+                    }
+                }
+                Stmt::AbortCmd(choice) => {
+                    if env.rt.abort_cmd(choice) {
+                        // the task has cancelled itself: it never gets past this point
+                        futures::future::pending::<()>().await;
+                    }
                 }
                 Stmt::Note => {
                     let op = env.next_op(NOTE);
@@ -175,6 +199,7 @@ pub fn run<R: Rt>(mut env: TaskEnv<R>, stmts: Vec<Stmt>) -> BoxFuture<'static, T
                     env.last = winner.last;
                 }
                 Stmt::JoinBig(n) => {
+                    let n = n.min(60_000u16.saturating_sub(env.nreq)); // request counters are 16 bit
                     let mut futs = vec![];
                     for _ in 0..n {
                         let op = env.next_op(REQ);
